@@ -1,8 +1,30 @@
 //! Component `sel`: state injection into REAL `SrtlaConnection`s and selection passes through the
 //! real `select_connection_idx`, `apply_stall_gate`, classic selector and best-quality override
-//! filter (C03, C04, C11, C12, C13).
+//! filter (C03, C04, C10, C11, C12, C13).
+//!
+//! Ops (same op, same output line in `lean/Srtla/Drv/Sel.lean`):
+//!   `new n now` | `set i k=v..` (model fields) | `aux i k=v..` (real-only fields, model ignores them)
+//!   `select last now cfg` | `select2 last now cfg` (decision + idempotence + stability)
+//!   `offbase last now cfg` (two guard-off decisions on the links AND on a history-free clone)
+//!   `gate now cfg` (bare `apply_stall_gate`) | `classic now` | `bestq now` | `factors now`
+//! State line per link: every `SLink` field incl. the IEEE bits of srtt / rtt_min / measured bitrate.
+//!
+//! Monitors (on the REAL code, independent of the model):
+//!   C03 blackout, gated-without-alternative
+//!   C04 out-of-range, ineligible-selected, override-ineligible, timeout-copy-not-refreshed
+//!       ("timed out" judged against the CONFIGURED window of the pass, `timed_out_oracle`)
+//!   C11 softcap-range, quality-range, score-not-finite, capped-selected, unscored-selected,
+//!       left-without-10pct, factor-not-applied-to-held-link, not-idempotent, not-stable
+//!   C12 frame (every non-guard field, `frame()`), off-not-cleared, counter-decreased,
+//!       off-differs-from-baseline (every guard-off pass + `offbase`), harness-clone-infidelity
+//!   C13 latch-engaged-illegally, never-proved-latched, latch-released-early, pull-released-unheard
+//!       (temporal, ghost history; counted only as `c13-ood:<sig>` outside timed traces),
+//!       held-not-gated, held-in-rotation (rotation: latched/pulled link next to a healthy one)
+//! C03/C04/C11 monitors are guarded by `in_domain()` (the properties' stated domain); out-of-domain
+//! states are generated for the correspondence only.
 
 use srtla_core::config_snapshot::ConfigSnapshot;
+use srtla_core::connection::batch_send::BatchRegime;
 use srtla_core::connection::verif_hooks::VerifPrivate;
 use srtla_core::connection::{LinkPhase, SrtlaConnection};
 use srtla_core::mode::SchedulingMode;
@@ -26,6 +48,18 @@ struct Sel {
     rt: tokio::runtime::Runtime,
     links: Vec<SrtlaConnection>,
     ghost: Vec<Ghost>,
+    /// largest selection clock seen in this case; C13 quantifies over TIMED traces (monotone clock)
+    max_now: u64,
+    clock_monotone: bool,
+    /// configured liveness window of the most recent pass of this case (the `bestq` op carries no cfg;
+    /// in the shell the override runs right after `select_connection_idx` under the same snapshot)
+    last_cto: Option<u64>,
+}
+
+/// Canonical float printing: IEEE bits, every NaN as the canonical quiet NaN (Lean's `Float.toBits`
+/// canonicalises NaN payloads, so both sides print 0x7ff8000000000000).
+fn fb(x: f64) -> u64 {
+    if x.is_nan() { 0x7ff8_0000_0000_0000 } else { x.to_bits() }
 }
 
 fn show_phase(p: &LinkPhase) -> String {
@@ -51,7 +85,7 @@ fn parse_phase(s: &str) -> Option<LinkPhase> {
 fn show_link(c: &SrtlaConnection) -> String {
     let p = c.verif_private();
     format!(
-        "{} c={} ph={} w={} inf={} q={} lr={} ls={} proof={} est={} grace={} cto={} gated={} lat={} rec={} gev={} pc={} pulled={} mark={} pulls={} weak={} ld={} cct={} qm={} qat={} nakc={} lnak={} burst={}",
+        "{} c={} ph={} w={} inf={} q={} lr={} ls={} proof={} est={} grace={} cto={} gated={} lat={} rec={} gev={} pc={} pulled={} mark={} pulls={} weak={} ld={} cct={} qm={} qat={} nakc={} lnak={} burst={} srtt={} rttmin={} br={}",
         c.conn_id,
         show_bool(c.connected),
         show_phase(&c.phase),
@@ -75,38 +109,125 @@ fn show_link(c: &SrtlaConnection) -> String {
         show_bool(c.weak),
         show_bool(c.loss_degraded),
         c.cc_target_bps,
-        p.quality_multiplier.to_bits(),
+        fb(p.quality_multiplier),
         p.quality_calculated_ms,
         c.congestion.nak_count,
         c.congestion.last_nak_time_ms,
-        c.congestion.nak_burst_count
+        c.congestion.nak_burst_count,
+        fb(c.get_smooth_rtt_ms()),
+        fb(c.get_rtt_min_ms()),
+        fb(c.bitrate.current_bitrate_bps)
     )
 }
 
-/// Liveness / accounting projection that a routing decision must never change (C12).
-fn frame(c: &SrtlaConnection) -> String {
-    format!(
-        "{}|{:?}|{:?}|{}|{}|{:?}|{}|{}|{}|{}|{}|{}|{}|{}|{}|{}|{}|{}|{}",
-        c.connected,
-        c.last_received,
-        c.last_sent,
-        c.window,
-        c.in_flight_packets,
-        c.verif_packet_log(),
-        c.verif_highest_acked_seq(),
-        c.congestion.nak_count,
-        c.congestion.last_nak_time_ms,
-        c.congestion.nak_burst_count,
-        c.congestion.fast_recovery_mode,
-        c.congestion.last_window_increase_ms,
-        show_phase(&c.phase),
-        c.reconnection.connection_established_ms,
-        c.reconnection.startup_grace_deadline_ms,
-        c.reconnection.last_reconnect_attempt_ms,
-        c.reconnection.reconnect_failure_count,
-        c.batch_sender.queued_count(),
-        c.last_ack_or_rtt_sample_ms
-    )
+/// C12 frame: EVERY field of the real `SrtlaConnection` except the ones a routing decision is
+/// allowed to change, i.e. exactly the `VerifPrivate` set: the guard's own flags / stamps / counters
+/// (`stall_gated`, `stall_latched_since_ms`, `stall_recovery_since_ms`, `stall_gate_events`,
+/// `stall_probe_counter`, `silence_pulled`, `silence_pull_heard_mark`, `silence_pulls`), the cached
+/// timeout copy (`conn_timeout_ms`) and the quality cache (`quality_cache.*`).
+///
+/// `SrtlaConnection` has no `Debug`, so the fields are enumerated by hand in declaration order
+/// (connection/mod.rs `pub struct SrtlaConnection`); the sub-structs (`RttTracker` incl. its Kalman
+/// filter and sample windows, `CongestionControl`, `BitrateTracker`, `ReconnectionState`,
+/// `BatchSender` incl. queued datagram bytes / sequence numbers / queue times / last flush / regime)
+/// are dumped whole through their own `Debug`.  A field added to the struct must be added here.
+fn frame(c: &SrtlaConnection) -> Vec<(&'static str, String)> {
+    vec![
+        ("conn_id", c.conn_id.to_string()),
+        ("local_ip", c.local_ip.to_string()),
+        ("label", c.label.clone()),
+        ("connected", c.connected.to_string()),
+        ("window", c.window.to_string()),
+        ("in_flight_packets", c.in_flight_packets.to_string()),
+        ("packet_log", format!("{:?}", c.verif_packet_log())),
+        ("highest_acked_seq", c.verif_highest_acked_seq().to_string()),
+        ("last_received", format!("{:?}", c.last_received)),
+        ("last_sent", format!("{:?}", c.last_sent)),
+        ("last_keepalive_sent", format!("{:?}", c.verif_last_keepalive_sent())),
+        ("last_ack_or_rtt_sample_ms", c.last_ack_or_rtt_sample_ms.to_string()),
+        ("rtt", format!("{:?}", c.rtt)),
+        ("congestion", format!("{:?}", c.congestion)),
+        ("bitrate", format!("{:?}", c.bitrate)),
+        ("reconnection", format!("{:?}", c.reconnection)),
+        ("batch_sender", format!("{:?}", c.batch_sender)),
+        ("phase", format!("{:?}", c.phase)),
+        ("weak", c.weak.to_string()),
+        ("cc_backing_off", c.cc_backing_off.to_string()),
+        ("cc_target_bps", c.cc_target_bps.to_string()),
+        ("loss_degraded", c.loss_degraded.to_string()),
+    ]
+}
+
+fn frame_diff(a: &[(&'static str, String)], b: &[(&'static str, String)]) -> Vec<String> {
+    a.iter()
+        .zip(b.iter())
+        .filter(|(x, y)| x != y)
+        .map(|(x, y)| format!("{}: {} -> {}", x.0, x.1, y.1))
+        .collect()
+}
+
+/// "The same links with no stall history at all" (C12): a separately constructed connection with
+/// every frame field copied and the guard's state zeroed; the quality cache and the cached timeout
+/// (no stall history) are copied.
+fn history_free_clone(c: &SrtlaConnection) -> SrtlaConnection {
+    let mut d = SrtlaConnection::new_registering(c.conn_id, c.label.clone(), c.local_ip, 0);
+    d.connected = c.connected;
+    d.window = c.window;
+    d.in_flight_packets = c.in_flight_packets;
+    d.packet_log = c.packet_log.clone();
+    d.highest_acked_seq = c.highest_acked_seq;
+    d.last_received = c.last_received;
+    d.last_sent = c.last_sent;
+    d.last_keepalive_sent = c.last_keepalive_sent;
+    d.last_ack_or_rtt_sample_ms = c.last_ack_or_rtt_sample_ms;
+    d.rtt = c.rtt.clone();
+    d.congestion = c.congestion.clone();
+    d.bitrate = c.bitrate.clone();
+    d.reconnection = c.reconnection.clone();
+    // `drain` on the empty queue only re-arms `last_flush_ms`
+    let _ = d.batch_sender.drain(c.batch_sender.verif_last_flush_ms());
+    for (data, seq, t) in c.batch_sender.verif_queue() {
+        d.batch_sender.queue_packet(&data, seq, t);
+    }
+    d.batch_sender.set_regime(c.batch_sender.regime());
+    d.phase = c.phase;
+    d.weak = c.weak;
+    d.cc_backing_off = c.cc_backing_off;
+    d.cc_target_bps = c.cc_target_bps;
+    d.loss_degraded = c.loss_degraded;
+    let p = c.verif_private();
+    d.verif_set_private(VerifPrivate {
+        stall_gated: false,
+        stall_latched_since_ms: 0,
+        stall_recovery_since_ms: 0,
+        stall_gate_events: 0,
+        stall_probe_counter: 0,
+        silence_pulled: false,
+        silence_pull_heard_mark: None,
+        silence_pulls: 0,
+        conn_timeout_ms: p.conn_timeout_ms,
+        quality_multiplier: p.quality_multiplier,
+        quality_calculated_ms: p.quality_calculated_ms,
+    });
+    d
+}
+
+fn has_stall_history(p: &VerifPrivate) -> bool {
+    p.stall_gated
+        || p.stall_latched_since_ms != 0
+        || p.stall_recovery_since_ms != 0
+        || p.stall_gate_events != 0
+        || p.stall_probe_counter != 0
+        || p.silence_pulled
+        || p.silence_pull_heard_mark.is_some()
+        || p.silence_pulls != 0
+}
+
+/// State captured before a pass of the real code.
+struct Snap {
+    frames: Vec<Vec<(&'static str, String)>>,
+    privs: Vec<VerifPrivate>,
+    lr: Vec<Option<u64>>,
 }
 
 fn parse_cfg(toks: &[&str]) -> Option<ConfigSnapshot> {
@@ -130,12 +251,30 @@ fn eff_window(c: &SrtlaConnection, ceiling: u64) -> u64 {
     }
 }
 
+/// Independent "timed out" oracle against a CONFIGURED liveness window `cto` (not the link's cached
+/// copy).  Connected link: silent for at least `cto`; a link that has never received is not timed
+/// out.  Disconnected link: due for (re-)registration, i.e. timed out, unless it was never established
+/// and its startup grace has not expired (semantics after /repo fix 5d44106).
+fn timed_out_oracle(c: &SrtlaConnection, now: u64, cto: u64) -> bool {
+    if !c.connected {
+        !(c.reconnection.connection_established_ms == 0 && now < c.reconnection.startup_grace_deadline_ms)
+    } else {
+        match c.last_received {
+            Some(lr) => now.saturating_sub(lr) >= cto,
+            None => false,
+        }
+    }
+}
+
 impl Sel {
     fn new() -> Self {
         Sel {
             rt: tokio::runtime::Builder::new_current_thread().enable_all().build().unwrap(),
             links: Vec::new(),
             ghost: Vec::new(),
+            max_now: 0,
+            clock_monotone: true,
+            last_cto: None,
         }
     }
 
@@ -169,6 +308,7 @@ impl Sel {
                 }
             }
             "lr" => c.last_received = opt_u64(v)?,
+            "ls" => c.last_sent = opt_u64(v)?,
             "proof" => c.last_ack_or_rtt_sample_ms = v.parse().ok()?,
             "est" => c.reconnection.connection_established_ms = v.parse().ok()?,
             "grace" => c.reconnection.startup_grace_deadline_ms = v.parse().ok()?,
@@ -216,6 +356,11 @@ impl Sel {
         if matches!(k, "cto" | "gated" | "lat" | "rec" | "gev" | "pc" | "pulled" | "mark" | "pulls" | "qm" | "qat") {
             c.verif_set_private(p);
         }
+        if k == "cto" {
+            // an injected copy is not the product of a pass: `bestq` right after it has no configured
+            // window to be judged against (in the shell the override always follows a pass)
+            self.last_cto = None;
+        }
         if stall_key {
             // injected guard state: the ghost history no longer describes this link
             self.ghost[i] = Ghost::default();
@@ -228,6 +373,66 @@ impl Sel {
             }
         }
         Some(())
+    }
+
+    /// `aux`: fields of the real connection that the model's `SLink` does not have.  They make the
+    /// C12 frame non-trivial (non-default values that a routing call could clobber) and, through the
+    /// correspondence, show that the real selectors do not read them (the model ignores the op).
+    fn set_aux(&mut self, i: usize, k: &str, v: &str) -> Option<()> {
+        let c = self.links.get_mut(i)?;
+        let opt_u64 = |v: &str| -> Option<Option<u64>> { if v == "-" { Some(None) } else { v.parse().ok().map(Some) } };
+        let b = |v: &str| -> Option<bool> {
+            match v {
+                "1" => Some(true),
+                "0" => Some(false),
+                _ => None,
+            }
+        };
+        let f = |v: &str| -> Option<f64> { v.parse::<u64>().ok().map(f64::from_bits) };
+        match k {
+            "ka" => c.verif_set_last_keepalive_sent(opt_u64(v)?),
+            "log" => {
+                let n: u32 = v.parse().ok()?;
+                c.packet_log.clear();
+                for j in 0..n.min(256) {
+                    c.packet_log.insert(1000 + j as i32, 5 + j as u64);
+                }
+            }
+            "hack" => c.highest_acked_seq = v.parse().ok()?,
+            "cbo" => c.cc_backing_off = b(v)?,
+            "fr" => c.congestion.fast_recovery_mode = b(v)?,
+            "frs" => c.congestion.fast_recovery_start_ms = v.parse().ok()?,
+            "lwi" => c.congestion.last_window_increase_ms = v.parse().ok()?,
+            "cack" => c.congestion.consecutive_acks_without_nak = v.parse().ok()?,
+            "nbs" => c.congestion.nak_burst_start_time_ms = v.parse().ok()?,
+            "jit" => c.rtt.rtt_jitter_ms = f(v)?,
+            "wka" => c.rtt.waiting_for_keepalive_response = b(v)?,
+            "lks" => c.rtt.last_keepalive_sent_ms = v.parse().ok()?,
+            "lrm" => c.rtt.last_rtt_measurement_ms = v.parse().ok()?,
+            "rmf" => c.rtt.rtt_min_fast_ms = f(v)?,
+            "rms" => c.rtt.rtt_min_slow_ms = f(v)?,
+            "lra" => c.reconnection.last_reconnect_attempt_ms = v.parse().ok()?,
+            "rfc" => c.reconnection.reconnect_failure_count = v.parse().ok()?,
+            "bst" => c.bitrate.bytes_sent_total = v.parse().ok()?,
+            "bsw" => c.bitrate.bytes_sent_window = v.parse().ok()?,
+            "lru" => c.bitrate.last_rate_update_ms = v.parse().ok()?,
+            "regime" => c.batch_sender.set_regime(match v {
+                "0" => BatchRegime::LowActivity,
+                "1" => BatchRegime::Normal,
+                "2" => BatchRegime::HighLoad,
+                _ => return None,
+            }),
+            _ => return None,
+        }
+        Some(())
+    }
+
+    fn snap(&self) -> Snap {
+        Snap {
+            frames: self.links.iter().map(frame).collect(),
+            privs: self.links.iter().map(|c| c.verif_private()).collect(),
+            lr: self.links.iter().map(|c| c.last_received).collect(),
+        }
     }
 
     /// Preconditions under which C03/C04/C11 quantify (the property's stated domain).
@@ -245,18 +450,61 @@ impl Sel {
 
     /// Real select + all per-select monitors. Returns the decision.
     fn do_select(&mut self, last: Option<usize>, now: u64, cfg: &ConfigSnapshot, mon: &mut Mon, op: &str) -> Option<usize> {
-        let n = self.links.len();
-        let before_frame: Vec<String> = self.links.iter().map(frame).collect();
-        let before_priv: Vec<VerifPrivate> = self.links.iter().map(|c| c.verif_private()).collect();
-        let before_lr: Vec<Option<u64>> = self.links.iter().map(|c| c.last_received).collect();
+        let s = self.snap();
+        // C12 "off means baseline": with the guard off, the same decision on a history-free clone
+        let mut base: Option<Vec<SrtlaConnection>> = if !cfg.stall_deselect {
+            let v: Vec<SrtlaConnection> = self.links.iter().map(history_free_clone).collect();
+            for (i, d) in v.iter().enumerate() {
+                let df = frame_diff(&s.frames[i], &frame(d));
+                if !df.is_empty() {
+                    mon.fail("C12", "harness-clone-infidelity", format!("history-free clone of link {i} differs from the original: {df:?}"));
+                }
+            }
+            Some(v)
+        } else {
+            None
+        };
         let res = select_connection_idx(&mut self.links, last, now, cfg);
+        if let Some(b) = base.as_mut() {
+            let rb = select_connection_idx(b, last, now, cfg);
+            mon.count("off-baseline-checked");
+            if s.privs.iter().any(has_stall_history) {
+                mon.count("off-baseline-checked-with-history");
+            }
+            if rb != res {
+                mon.fail(
+                    "C12",
+                    "off-differs-from-baseline",
+                    format!("guard off: decision {res:?} on links with stall history {:?}, but {rb:?} on the same links with no stall history ({op})", s.privs),
+                );
+            }
+        }
+        self.after_pass(&s, Some((last, res)), now, cfg, mon, op);
+        res
+    }
+
+    /// Monitors after a pass of the real code.  `decision` = `(last, result)` of a selection, `None`
+    /// for a bare `apply_stall_gate` pass.
+    fn after_pass(&mut self, s: &Snap, decision: Option<(Option<usize>, Option<usize>)>, now: u64, cfg: &ConfigSnapshot, mon: &mut Mon, op: &str) {
+        let n = self.links.len();
+        let before_priv = &s.privs;
+        let before_lr = &s.lr;
         let domain = self.in_domain();
+        // "timed out" is judged against the CONFIGURED liveness window of this pass, not against the
+        // link's cached copy (which the pass is supposed to have refreshed, see `timeout-copy-not-refreshed`)
+        let cto = cfg.conn_timeout_ms;
+        self.last_cto = Some(cto);
+        if now < self.max_now {
+            self.clock_monotone = false;
+            mon.count("clock-went-backwards");
+        }
+        self.max_now = self.max_now.max(now);
 
         // ---- C12: routing never touches liveness / accounting; guard off clears everything
         for i in 0..n {
-            let a = frame(&self.links[i]);
-            if a != before_frame[i] {
-                mon.fail("C12", "frame", format!("select changed liveness/accounting of link {i}: {} -> {a} ({op})", before_frame[i]));
+            let df = frame_diff(&s.frames[i], &frame(&self.links[i]));
+            if !df.is_empty() {
+                mon.fail("C12", "frame", format!("routing changed non-guard state of link {i}: {df:?} ({op})"));
             }
             let p = self.links[i].verif_private();
             if !cfg.stall_deselect && (p.stall_gated || p.silence_pulled || p.stall_latched_since_ms != 0 || p.stall_recovery_since_ms != 0) {
@@ -267,11 +515,68 @@ impl Sel {
             }
         }
 
+        // ---- C04 (mechanism behind "not timed out"): every pass, guard on or off, refreshes each link's
+        // cached liveness window from the configuration (clause (a) of C08_timeout_copy)
+        for i in 0..n {
+            let copy = self.links[i].verif_private().conn_timeout_ms;
+            if copy != cto {
+                mon.fail(
+                    "C04",
+                    "timeout-copy-not-refreshed",
+                    format!("after the pass link {i} caches conn_timeout_ms={copy} (before the pass: {}) but the configuration says {cto} (guard {}) ({op})", before_priv[i].conn_timeout_ms, if cfg.stall_deselect { "on" } else { "off" }),
+                );
+            }
+            if before_priv[i].conn_timeout_ms != cto {
+                mon.count(if cfg.stall_deselect { "timeout-copy-differed-guard-on" } else { "timeout-copy-differed-guard-off" });
+                // silence age strictly between the stale copy and the configured window: the two disagree
+                if let (true, Some(lr)) = (self.links[i].connected, self.links[i].last_received) {
+                    let age = now.saturating_sub(lr);
+                    let (lo, hi) = (cto.min(before_priv[i].conn_timeout_ms), cto.max(before_priv[i].conn_timeout_ms));
+                    if lo <= age && age < hi {
+                        mon.count(if cto < before_priv[i].conn_timeout_ms { "timeout-copy-stale-says-alive" } else { "timeout-copy-stale-says-dead" });
+                    }
+                }
+            }
+        }
+
+        // ---- C13 rotation: a latched / pulled link is out of rotation while a healthy link exists
+        if cfg.stall_deselect {
+            let healthy: Vec<usize> = (0..n)
+                .filter(|j| {
+                    let c = &self.links[*j];
+                    let p = c.verif_private();
+                    c.connected && !timed_out_oracle(c, now, cto) && c.is_schedulable() && p.stall_latched_since_ms == 0 && !p.silence_pulled
+                })
+                .collect();
+            for i in 0..n {
+                let p = self.links[i].verif_private();
+                let held = p.stall_latched_since_ms != 0 || p.silence_pulled;
+                if !held {
+                    continue;
+                }
+                if healthy.is_empty() {
+                    // the exception C03 requires: with no healthy alternative the held link stays eligible
+                    mon.count("held-without-healthy-alternative");
+                    continue;
+                }
+                mon.count("held-next-to-healthy");
+                if !self.links[i].is_stall_gated() {
+                    mon.fail("C13", "held-not-gated", format!("link {i} is latched/pulled ({p:?}) while links {healthy:?} are healthy, but it is not stall-gated ({op})"));
+                }
+                if let Some((_, Some(r))) = decision {
+                    if r == i {
+                        mon.fail("C13", "held-in-rotation", format!("link {i} is latched/pulled ({p:?}) while links {healthy:?} are healthy, and was selected ({op})"));
+                    }
+                }
+            }
+        }
+
+        if let Some((last, res)) = decision {
         // ---- C03 / C04
         let usable: Vec<usize> = (0..n)
             .filter(|i| {
                 let c = &self.links[*i];
-                c.is_schedulable() && c.connected && !c.is_timed_out(now)
+                c.is_schedulable() && c.connected && !timed_out_oracle(c, now, cto)
             })
             .collect();
         if domain {
@@ -286,11 +591,11 @@ impl Sel {
                 match self.links.get(r) {
                     None => mon.fail("C04", "out-of-range", format!("select returned index {r} of {n}")),
                     Some(c) => {
-                        if !c.is_schedulable() || c.is_timed_out(now) || c.is_stall_gated() || !c.connected {
+                        if !c.is_schedulable() || timed_out_oracle(c, now, cto) || c.is_stall_gated() || !c.connected {
                             mon.fail(
                                 "C04",
                                 "ineligible-selected",
-                                format!("select chose link {r}: schedulable={} timed_out={} gated={} connected={} ({op})", c.is_schedulable(), c.is_timed_out(now), c.is_stall_gated(), c.connected),
+                                format!("select chose link {r}: schedulable={} timed_out(configured {cto})={} gated={} connected={} last_received={:?} ({op})", c.is_schedulable(), timed_out_oracle(c, now, cto), c.is_stall_gated(), c.connected, c.last_received),
                             );
                         }
                     }
@@ -302,7 +607,7 @@ impl Sel {
                 mon.count("some-link-gated");
                 let alt = self.links.iter().any(|c| {
                     let p = c.verif_private();
-                    c.connected && c.is_schedulable() && !c.is_timed_out(now) && p.stall_latched_since_ms == 0 && !p.silence_pulled
+                    c.connected && c.is_schedulable() && !timed_out_oracle(c, now, cto) && p.stall_latched_since_ms == 0 && !p.silence_pulled
                 });
                 if !alt {
                     mon.fail("C03", "gated-without-alternative", format!("a link is stall-gated but no healthy alternative exists ({op})"));
@@ -314,11 +619,11 @@ impl Sel {
         if domain && cfg.mode == SchedulingMode::Enhanced {
             let quality = cfg.quality_enabled;
             let any_unc = self.links.iter().any(|c| {
-                c.connected && !c.is_timed_out(now) && c.is_schedulable() && !c.weak && !c.loss_degraded && !c.is_stall_gated() && !in_flight_cap_exceeded(c)
+                c.connected && !timed_out_oracle(c, now, cto) && c.is_schedulable() && !c.weak && !c.loss_degraded && !c.is_stall_gated() && !in_flight_cap_exceeded(c)
             });
             let mut scored: Vec<Option<f64>> = Vec::with_capacity(n);
             for c in &self.links {
-                let skipped = c.is_timed_out(now) || !c.is_schedulable() || c.is_stall_gated() || !c.connected || (any_unc && in_flight_cap_exceeded(c));
+                let skipped = timed_out_oracle(c, now, cto) || !c.is_schedulable() || c.is_stall_gated() || !c.connected || (any_unc && in_flight_cap_exceeded(c));
                 if skipped {
                     scored.push(None);
                     continue;
@@ -396,6 +701,8 @@ impl Sel {
             }
         }
 
+        } // decision monitors
+
         // ---- C13: temporal monitors with ghost history
         let ceil = cfg.stall_ack_stale_ms;
         for i in 0..n {
@@ -408,21 +715,45 @@ impl Sel {
                 self.ghost[i] = Ghost::default();
                 continue;
             }
+            // C13 quantifies over TIMED traces: a monotone clock, and stamps taken from that clock
+            // (never in the future of `now`).  Outside that domain the checks still run but are only
+            // counted (`c13-ood:<sig>`), never reported as violations.
+            let stamps_ok = proof <= now
+                && before_lr[i].is_none_or(|x| x <= now)
+                && b.stall_latched_since_ms <= now
+                && b.stall_recovery_since_ms <= now
+                && b.silence_pull_heard_mark.is_none_or(|x| x <= now);
+            let dom13 = self.clock_monotone && stamps_ok;
+            if !dom13 {
+                mon.count("c13-out-of-domain-link-pass");
+            }
+            let fail13 = |mon: &mut Mon, sig: &str, desc: String| {
+                if dom13 {
+                    mon.fail("C13", sig, desc);
+                } else {
+                    mon.count(&format!("c13-ood:{sig}"));
+                }
+            };
             // engage
             if b.stall_latched_since_ms == 0 && p.stall_latched_since_ms != 0 {
                 mon.count("latch-engaged");
                 mon.nontrivial();
                 let age_ok = proof != 0 && now.saturating_sub(proof) >= win;
                 let load_ok = c.in_flight_packets >= cfg.stall_min_in_flight || p.silence_pulled;
-                if !(c.connected || p.silence_pulled) || !age_ok || !load_ok {
-                    mon.fail(
-                        "C13",
+                // `C13_engage_only_if_pass`: the link is connected in every engaging pass (a pull that
+                // survives the pull update of the pass belongs to a connected link)
+                if !c.connected || !age_ok || !load_ok {
+                    fail13(
+                        mon,
                         "latch-engaged-illegally",
                         format!("link {i} latched at {now}: connected={} proof={proof} window={win} in_flight={} min={} pulled={} ({op})", c.connected, c.in_flight_packets, cfg.stall_min_in_flight, p.silence_pulled),
                     );
                 }
                 if proof == 0 {
-                    mon.fail("C13", "never-proved-latched", format!("link {i} latched without ever producing delivery proof"));
+                    fail13(mon, "never-proved-latched", format!("link {i} latched without ever producing delivery proof"));
+                }
+                if p.silence_pulled && c.in_flight_packets < cfg.stall_min_in_flight {
+                    mon.count("latch-engaged-by-pull-escalation");
                 }
                 self.ghost[i].fresh_run_start = None;
             }
@@ -442,12 +773,13 @@ impl Sel {
             if was_latched && p.stall_latched_since_ms == 0 {
                 mon.count("latch-released");
                 mon.nontrivial();
+                let dwell = win.saturating_mul(2);
                 match self.ghost[i].fresh_run_start {
-                    Some(t0) if now.saturating_sub(t0) >= 2 * win => {}
-                    other => mon.fail(
-                        "C13",
+                    Some(t0) if now.saturating_sub(t0) >= dwell => {}
+                    other => fail13(
+                        mon,
                         "latch-released-early",
-                        format!("link {i} un-latched at {now}: fresh-proof run start {other:?}, window {win} (needs >= {} of continuous fresh proof) ({op})", 2 * win),
+                        format!("link {i} un-latched at {now}: fresh-proof run start {other:?}, window {win} (needs >= {dwell} of continuous fresh proof) ({op})"),
                     ),
                 }
                 self.ghost[i].fresh_run_start = None;
@@ -465,151 +797,390 @@ impl Sel {
                     None => true,
                 };
                 if !heard && c.connected {
-                    mon.fail("C13", "pull-released-unheard", format!("link {i}: silence pull released at {now} but last_received {:?} never moved and the link is connected ({op})", c.last_received));
+                    fail13(mon, "pull-released-unheard", format!("link {i}: silence pull released at {now} but last_received {:?} never moved and the link is connected ({op})", c.last_received));
                 }
                 self.ghost[i].lr_at_pull = None;
             }
         }
-        res
     }
 }
 
 fn f64_bits(x: f64) -> u64 {
-    x.to_bits()
+    fb(x)
 }
 
-const CEILS: [u64; 6] = [3000, 3000, 3000, 500, 1000, 10000];
+/// The model's `score` divides with Lean's `Int./` (floor), Rust's `i32 /` truncates: they differ on
+/// NEGATIVE windows (never reachable: windows live in 1000..=60000).  Recorded as a finding about the
+/// model in `corpus/sel/neg-window.ops.out-of-domain`; kept out of the generated stream until the
+/// model uses `Int.tdiv`.
+const NEG_WINDOWS_IN_STREAM: bool = false;
+
+const NAN_BITS: u64 = 0x7ff8_0000_0000_0001; // a NaN with a payload: printing must canonicalise it
+
+/// Generator-side description of a case class.
+#[derive(Clone, Copy)]
+struct Class {
+    /// out-of-domain values allowed (windows outside 1000..=60000, negative in-flight, NaN / out-of-range
+    /// quality cache, NaN / negative measured bitrate, negative NAK counters): correspondence only
+    wild: bool,
+    /// stamps in the future of `now`, clock going backwards: C13 monitors only count there
+    wild_time: bool,
+}
+
+fn gen_cfg(rng: &mut Rng, k: Class) -> String {
+    gen_cfg_with(rng, k, None, None)
+}
+
+/// The liveness windows used for timeout-copy skew: (configured window, stale cached copy).
+const CTO_SKEW: [(u64, u64); 10] = [(2000, 5000), (5000, 12000), (1000, 5000), (2500, 5000), (5000, 60000), (5000, 2000), (12000, 5000), (5000, 1000), (60000, 5000), (30000, 1000)];
+
+fn gen_cfg_with(rng: &mut Rng, k: Class, force_cto: Option<u64>, force_stall: Option<bool>) -> String {
+    let minif: i64 = if rng.chance(1, 4) {
+        *rng.pick(&[0i64, -1, -5, 1, 8, 100, i32::MIN as i64, i32::MAX as i64])
+    } else {
+        32
+    };
+    let ceil: u64 = if rng.chance(1, 2) {
+        3000
+    } else if k.wild && rng.chance(1, 8) {
+        u64::MAX
+    } else {
+        *rng.pick(&[0u64, 1, 500, 999, 1000, 1001, 3000, 10000, 60000])
+    };
+    let cto: u64 = if rng.chance(1, 2) {
+        5000
+    } else if k.wild && rng.chance(1, 8) {
+        *rng.pick(&[1u64, u64::MAX])
+    } else {
+        *rng.pick(&[0u64, 1000, 1000, 2500, 5000, 30000, 60000, 60000])
+    };
+    let cto = force_cto.unwrap_or(cto);
+    let stall = force_stall.unwrap_or_else(|| rng.chance(4, 5));
+    format!(
+        "classic={} quality={} stall={} minif={minif} ceil={ceil} cto={cto}",
+        if rng.chance(1, 3) { 1 } else { 0 },
+        rng.below(2),
+        if stall { 1 } else { 0 },
+    )
+}
+
+fn gen_window(rng: &mut Rng, k: Class) -> i64 {
+    if k.wild && rng.chance(1, 3) {
+        if NEG_WINDOWS_IN_STREAM && rng.chance(1, 3) {
+            return *rng.pick(&[-1i64, -5, -1000, i32::MIN as i64]);
+        }
+        return *rng.pick(&[0i64, 1, 999, 60001, 100_000, i32::MAX as i64]);
+    }
+    match rng.below(7) {
+        0 => 1000,
+        1 => 60000,
+        2 => *rng.pick(&[1001i64, 1029, 1999, 2000, 12000, 59971, 59999]),
+        3 | 4 => 1000 + rng.below(59001) as i64, // off the +29/+1/-100 grid
+        _ => 20000,
+    }
+}
+
+fn gen_inf(rng: &mut Rng, k: Class) -> i64 {
+    if k.wild && rng.chance(1, 4) {
+        return *rng.pick(&[-1i64, -5, -33, i32::MIN as i64]);
+    }
+    if rng.chance(1, 10) {
+        // `in_flight + queued + 1` on the saturating_add path
+        return *rng.pick(&[i32::MAX as i64, i32::MAX as i64 - 1, i32::MAX as i64 - 15, i32::MAX as i64 - 16, i32::MAX as i64 - 40, 1 << 30]);
+    }
+    *rng.pick(&[0i64, 0, 1, 5, 31, 32, 33, 64, 200, 20000])
+}
+
+fn gen_q(rng: &mut Rng) -> u32 {
+    if rng.chance(1, 5) { *rng.pick(&[16u32, 17, 31, 32, 33, 40, 100]) } else { *rng.pick(&[0u32, 0, 0, 1, 3, 15]) }
+}
+
+/// A stamp `back` ms before `now`; in wild-time cases sometimes AFTER `now`.
+fn stamp_fn(rng: &mut Rng, k: Class, now: u64, back: u64) -> u64 {
+    if k.wild_time && rng.chance(1, 4) {
+        now.saturating_add(*rng.pick(&[1u64, 249, 1000, 5000, 100_000]))
+    } else {
+        now.saturating_sub(back)
+    }
+}
+
+fn gen_srtt(rng: &mut Rng) -> f64 {
+    if rng.chance(1, 8) {
+        // ignored by the Kalman filter (non-finite), clamped (negative), or huge (`as u64` saturates,
+        // `saturating_mul(4)` saturates)
+        return *rng.pick(&[f64::NAN, f64::INFINITY, f64::NEG_INFINITY, -3.0, -0.0, 1e19, 9223372036854775808.0, 18446744073709551616.0, 4.7e18, 1e300, 5e-324]);
+    }
+    *rng.pick(&[0.0, 0.0, 0.4, 0.99, 20.0, 49.0, 50.0, 62.0, 62.5, 124.99, 125.0, 200.0, 249.99, 250.0, 250.5, 400.0, 750.0, 2000.0, 15000.0])
+}
+
+fn gen_rttmin(rng: &mut Rng) -> u64 {
+    if rng.chance(1, 6) {
+        let x: f64 = *rng.pick(&[f64::NEG_INFINITY, -5.0, -0.0, 5e-324, 1e-300, 1e300, 9223372036854775808.0]);
+        return if rng.chance(1, 4) { NAN_BITS } else { f64_bits(x) };
+    }
+    f64_bits(*rng.pick(&[200.0, 20.0, 50.0, 0.0, 0.5, 600.0, f64::INFINITY]))
+}
+
+fn gen_cct(rng: &mut Rng) -> u64 {
+    if rng.chance(1, 4) {
+        // tiny (cap floors at 1) and huge (cap >= 2^31, `u64 as f64` rounding above 2^53)
+        return *rng.pick(&[1u64, 7, 100_000_000_000_000, 10_000_000_000_000_000, (1 << 53) + 1, 1 << 63, (1 << 63) + 1025, u64::MAX - 1024, u64::MAX]);
+    }
+    *rng.pick(&[100_000u64, 1_000_000, 5_000_000, 200_000_000])
+}
+
+fn gen_br(rng: &mut Rng, k: Class, cct: u64) -> u64 {
+    if k.wild && rng.chance(1, 3) {
+        let x: f64 = *rng.pick(&[f64::INFINITY, f64::NEG_INFINITY, -1.0, -0.0, 1e300]);
+        return if rng.chance(1, 4) { NAN_BITS } else { f64_bits(x) };
+    }
+    let frac = *rng.pick(&[0.0, 0.5, 0.89, 0.9, 0.91, 1.0, 1.7]);
+    f64_bits(cct as f64 * frac)
+}
+
+fn gen_qm(rng: &mut Rng, k: Class) -> u64 {
+    if k.wild && rng.chance(1, 3) {
+        let x: f64 = *rng.pick(&[f64::INFINITY, f64::NEG_INFINITY, -1.0, 0.0, 0.34, 1.2, 1e300]);
+        return if rng.chance(1, 4) { NAN_BITS } else { f64_bits(x) };
+    }
+    f64_bits(*rng.pick(&[0.35, 0.5, 0.98, 1.0, 1.1, 1.133]))
+}
+
+fn gen_aux(rng: &mut Rng, i: usize, now: u64) -> String {
+    let mut s = format!("aux {i}");
+    let all: [&dyn Fn(&mut Rng) -> String; 12] = [
+        &|r| format!("ka={}", if r.chance(1, 5) { "-".to_string() } else { now.saturating_sub(r.below(2000)).to_string() }),
+        &|r| format!("log={} hack={}", r.below(40), r.pick(&[i32::MIN as i64, -7, 0, 999, 1005])),
+        &|r| format!("cbo={}", r.below(2)),
+        &|r| format!("fr={} frs={}", r.below(2), now.saturating_sub(r.below(3000))),
+        &|r| format!("lwi={} cack={}", now.saturating_sub(r.below(3000)), r.pick(&[0i64, 3, 4, 100, -2])),
+        &|r| format!("nbs={}", now.saturating_sub(r.below(3000))),
+        &|r| format!("jit={} rmf={} rms={}", f64_bits(*r.pick(&[0.0, 3.5, 80.0])), f64_bits(*r.pick(&[20.0, 200.0])), f64_bits(*r.pick(&[20.0, 60.0, 200.0]))),
+        &|r| format!("wka={} lks={} lrm={}", r.below(2), now.saturating_sub(r.below(1500)), now.saturating_sub(r.below(5000))),
+        &|r| format!("lra={} rfc={}", now.saturating_sub(r.below(20000)), r.below(7)),
+        &|r| format!("bst={} bsw={}", 100_000 + r.below(1_000_000), r.below(100_000)),
+        &|r| format!("lru={}", now.saturating_sub(r.below(2500))),
+        &|r| format!("regime={}", r.below(3)),
+    ];
+    for f in all.iter() {
+        if rng.chance(1, 2) {
+            s += " ";
+            s += &f(rng);
+        }
+    }
+    s
+}
+
+/// `stamp_fn` with the `back` argument evaluated first (it usually draws from `rng` too).
+macro_rules! stamp {
+    ($rng:expr, $k:expr, $now:expr, $back:expr) => {{
+        let b = $back;
+        stamp_fn($rng, $k, $now, b)
+    }};
+}
 
 impl Component for Sel {
     fn rule(&self) -> &'static str {
-        "sel: (A) state-injection cases: 1-4 real SrtlaConnections with every selection-relevant field injected \
+        "sel: (A) state-injection cases: 0-4 real SrtlaConnections with every selection-relevant field injected \
          (phase x connected x timed-out x latched x pulled x weak x loss-degraded x capped x never-proved x \
-         warming, windows on the C06 grid, NAK ages/bursts around 3000/30000 ms, RTT none/20..2000 ms, bitrate vs \
-         CC target, quality cache fresh/stale), then `factors`, `select2` (decision, idempotence, stability), \
-         `bestq`; every mode / quality / guard / threshold / timeout setting and every previous index. (B) timed \
-         traces of 20-80 selects with in-flight changes, inbound bytes, earned proof, RTT changes and guard \
-         toggles at times on the {window-1, window, 2*window-1, 2*window} grid. Non-trivial: a usable link exists, \
-         or a latch/pull engaged or released, or selection left a scored previous link."
+         warming; windows at 1000 / 60000, on and off the C06 grid; in-flight + queued up to the i32 \
+         saturating_add path, queued 0..100; NAK ages/bursts around 3000/30000 ms; RTT none / 0.4..15000 ms / \
+         NaN / +-inf / negative / >= 2^63; rtt_min NaN / +-inf / negative / denormal / huge; CC target 1 .. u64::MAX \
+         (in-flight cap >= 2^31) vs measured bitrate; quality cache fresh/stale), `aux` injection of the fields \
+         the model does not have (keepalive stamp, packet log, CC/RTT/reconnect/bitrate bookkeeping, batch \
+         regime), then `factors`, `select2` (decision, idempotence, stability), `bestq`, `gate`+`classic`, \
+         `offbase` (guard-off decision vs history-free clone); every mode / quality / guard setting, minif in \
+         {i32::MIN..i32::MAX incl. <= 0}, ceiling in {0,1,500,999,1000,1001,3000,10000,60000}, timeout in \
+         {0,1000,2500,5000,30000,60000}, per-link cached timeout copies that differ from the configured one \
+         (2000 vs 5000, 5000 vs 12000, ... both directions) with silence ages between the two, guard on and off, every previous index incl. out of range. 1 case in 5 is WILD \
+         (windows outside 1000..=60000, negative in-flight, NaN / out-of-range quality cache, NaN / negative \
+         bitrate, negative NAK counters, now near 0 or 2^63: correspondence only, C03/C04/C11 monitors off by \
+         the `domain` flag), 1 in 5 has stamps in the future of `now` and a clock that goes backwards (C13 \
+         temporal monitors only count there). (B) timed traces of 20-80 selects (thorough: up to 120) with \
+         in-flight / window / queue changes, inbound bytes, earned proof, RTT changes, phase / weak / cap \
+         changes, mid-trace injection of latch / pull / gated flags, guard toggles and `offbase`, at times on \
+         the {window-1, window, 2*window-1, 2*window} grid. Non-trivial: a usable link exists, or a latch/pull \
+         engaged or released, or selection left a scored previous link, or `offbase` ran on links with stall history."
     }
 
-    fn gen_case(&mut self, rng: &mut Rng, _tier: Tier, idx: usize) -> Vec<String> {
-        let n = rng.range(1, 4) as usize;
-        let t0: u64 = 1_000_000 + rng.below(100_000);
-        let mut ops = vec![format!("new {n} {t0}")];
-        let cfg = |rng: &mut Rng| -> String {
-            format!(
-                "classic={} quality={} stall={} minif={} ceil={} cto={}",
-                if rng.chance(1, 3) { 1 } else { 0 },
-                rng.below(2),
-                if rng.chance(4, 5) { 1 } else { 0 },
-                rng.pick(&[32i32, 32, 1, 0, 8, 100]),
-                rng.pick(&CEILS),
-                rng.pick(&[5000u64, 5000, 1000, 60000, 2500])
-            )
+    fn gen_case(&mut self, rng: &mut Rng, tier: Tier, idx: usize) -> Vec<String> {
+        let k = Class { wild: rng.chance(1, 5), wild_time: rng.chance(1, 5) };
+        let n = if rng.chance(1, 40) { 0 } else { rng.range(1, 4) as usize };
+        let t0: u64 = if k.wild && rng.chance(1, 6) {
+            *rng.pick(&[0u64, 1, 40, 2500, 1 << 63, u64::MAX - 200_000])
+        } else {
+            1_000_000 + rng.below(100_000)
         };
-        let windows = [1000, 1029, 2000, 12000, 20000, 20000, 20000, 59971, 60000];
+        let mut ops = vec![format!("new {n} {t0}")];
+        let pick_last = |rng: &mut Rng| -> String {
+            if rng.chance(1, 4) { "-".to_string() } else { format!("{}", rng.below(n as u64 + 1)) }
+        };
         if idx % 2 == 0 {
             // ---------- (A) injection
-            let now = t0 + rng.below(60_000);
+            let now = t0.saturating_add(rng.below(60_000));
             for i in 0..n {
                 let mut s = format!("set {i}");
                 let ph = match rng.below(8) {
                     0 => "reg".to_string(),
-                    1 => format!("warm:{}:{}", rng.below(2), now.saturating_sub(rng.below(6000))),
+                    1 => format!("warm:{}:{}", rng.below(2), stamp!(rng, k, now, rng.below(6000))),
                     2 => "deg".into(),
                     _ => "live".into(),
                 };
                 s += &format!(" ph={ph} c={}", if rng.chance(5, 6) { 1 } else { 0 });
-                s += &format!(" w={}", rng.pick(&windows));
-                let inf = *rng.pick(&[0i64, 0, 1, 5, 31, 32, 33, 64, 200, 20000]);
-                s += &format!(" inf={inf} q={}", rng.pick(&[0, 0, 0, 1, 3, 15]));
+                s += &format!(" w={}", gen_window(rng, k));
+                s += &format!(" inf={} q={}", gen_inf(rng, k), gen_q(rng));
                 // receive age versus timeout
-                let lr = match rng.below(8) {
+                let lr = match rng.below(9) {
                     0 => "-".to_string(),
                     1 => format!("{}", now.saturating_sub(4999)),
                     2 => format!("{}", now.saturating_sub(5000)),
                     3 => format!("{}", now.saturating_sub(60000)),
                     4 => format!("{}", now.saturating_sub(250)),
-                    _ => format!("{}", now.saturating_sub(rng.below(900))),
+                    5 => format!("{}", stamp!(rng, k, now, *rng.pick(&[999u64, 1000, 2499, 2500, 29_999, 30_000, 59_999]))),
+                    _ => format!("{}", stamp!(rng, k, now, rng.below(900))),
                 };
                 s += &format!(" lr={lr}");
-                let est = match rng.below(5) {
+                if rng.chance(1, 3) {
+                    s += &format!(" ls={}", if rng.chance(1, 4) { "-".to_string() } else { now.saturating_sub(rng.below(3000)).to_string() });
+                }
+                let est = match rng.below(6) {
                     0 => 0,
                     1 => now.saturating_sub(29_999),
                     2 => now.saturating_sub(30_000),
+                    3 => stamp!(rng, k, now, 35_000),
                     _ => now.saturating_sub(40_000 + rng.below(10_000)),
                 };
-                s += &format!(" est={est} grace={}", if rng.chance(1, 4) { now + 1000 } else { t0 });
+                let grace = match rng.below(6) {
+                    0 => now.saturating_add(1000),
+                    1 => now,
+                    2 => now.saturating_add(1),
+                    3 => 0,
+                    _ => t0,
+                };
+                s += &format!(" est={est} grace={grace}");
                 // delivery proof age
-                let proof = match rng.below(7) {
+                let proof = match rng.below(8) {
                     0 => 0,
                     1 => now.saturating_sub(2999),
                     2 => now.saturating_sub(3000),
                     3 => now.saturating_sub(999),
                     4 => now.saturating_sub(1000),
-                    _ => now.saturating_sub(rng.below(500)),
+                    5 => stamp!(rng, k, now, *rng.pick(&[1u64, 499, 500, 1001, 9999, 10_000, 59_999, 60_000])),
+                    _ => stamp!(rng, k, now, rng.below(500)),
                 };
                 s += &format!(" proof={proof}");
                 // stall history
                 if rng.chance(1, 3) {
-                    let lat = now.saturating_sub(rng.below(8000) + 1);
+                    let lat = stamp!(rng, k, now, rng.below(8000) + 1);
                     s += &format!(" lat={lat}");
                     if rng.chance(1, 2) {
-                        s += &format!(" rec={}", now.saturating_sub(*rng.pick(&[1u64, 1999, 2000, 5999, 6000, 6001])));
+                        s += &format!(" rec={}", stamp!(rng, k, now, *rng.pick(&[1u64, 1999, 2000, 5999, 6000, 6001, 19_999, 20_000])));
                     }
+                } else if rng.chance(1, 12) {
+                    // a recovery stamp without a latch (ignored by the code)
+                    s += &format!(" rec={}", now.saturating_sub(100));
                 }
                 if rng.chance(1, 4) {
-                    s += &format!(" pulled=1 mark={}", if rng.chance(1, 2) { lr.clone() } else { format!("{}", now.saturating_sub(7000)) });
+                    s += &format!(" pulled=1 mark={}", if rng.chance(1, 2) { lr.clone() } else { format!("{}", stamp!(rng, k, now, 7000)) });
                 }
                 if rng.chance(1, 5) {
                     s += " gated=1";
                 }
+                if rng.chance(1, 6) {
+                    s += &format!(" gev={} pulls={} pc={}", rng.below(5), rng.below(5), rng.below(50));
+                }
                 s += &format!(" weak={} ld={}", if rng.chance(1, 4) { 1 } else { 0 }, if rng.chance(1, 5) { 1 } else { 0 });
                 // RTT
-                let srtt: f64 = *rng.pick(&[0.0, 0.0, 0.4, 20.0, 49.0, 50.0, 125.0, 200.0, 250.0, 400.0, 750.0, 2000.0, -3.0]);
-                s += &format!(" srtt={}", f64_bits(srtt));
-                s += &format!(" rttmin={}", f64_bits(*rng.pick(&[200.0, 20.0, 50.0, 0.0, 600.0, f64::INFINITY])));
+                s += &format!(" srtt={}", f64_bits(gen_srtt(rng)));
+                s += &format!(" rttmin={}", gen_rttmin(rng));
                 // CC target vs measured bitrate
                 if rng.chance(1, 2) {
-                    let cct = *rng.pick(&[100_000u64, 1_000_000, 5_000_000, 200_000_000]);
-                    let frac = *rng.pick(&[0.0, 0.5, 0.89, 0.9, 0.91, 1.0, 1.7]);
-                    s += &format!(" cct={cct} br={}", f64_bits(cct as f64 * frac));
+                    let cct = gen_cct(rng);
+                    s += &format!(" cct={cct} br={}", gen_br(rng, k, cct));
+                } else if k.wild && rng.chance(1, 4) {
+                    s += &format!(" br={}", gen_br(rng, k, 1_000_000));
                 }
                 // quality inputs
                 if rng.chance(1, 2) {
-                    let lnak = now.saturating_sub(*rng.pick(&[0u64, 1, 1000, 2999, 3000, 8000, 60_000]));
-                    s += &format!(" nakc={} lnak={lnak} burst={}", rng.range(1, 9), rng.pick(&[0, 2, 4, 5, 9]));
+                    let lnak = stamp!(rng, k, now, *rng.pick(&[0u64, 1, 1000, 2999, 3000, 8000, 60_000]));
+                    let nakc: i64 = if k.wild && rng.chance(1, 4) { *rng.pick(&[-1i64, i32::MIN as i64]) } else { rng.range(1, 9) as i64 };
+                    let burst: i64 = if k.wild && rng.chance(1, 4) { *rng.pick(&[-3i64, i32::MIN as i64]) } else { *rng.pick(&[0i64, 2, 4, 5, 9, i32::MAX as i64]) };
+                    s += &format!(" nakc={nakc} lnak={lnak} burst={burst}");
                 } else if rng.chance(1, 6) {
                     s += " nakc=3";
                 }
-                // quality cache: default, in-range fresh, in-range stale
+                // quality cache: default, fresh, stale, stamped in the future
                 match rng.below(3) {
                     0 => {}
-                    1 => s += &format!(" qm={} qat={}", f64_bits(*rng.pick(&[0.35, 0.5, 0.98, 1.0, 1.1, 1.133])), now.saturating_sub(rng.below(49))),
-                    _ => s += &format!(" qm={} qat={}", f64_bits(*rng.pick(&[0.35, 0.5, 0.98, 1.0, 1.1])), now.saturating_sub(50 + rng.below(5000))),
+                    1 => s += &format!(" qm={} qat={}", gen_qm(rng, k), stamp!(rng, k, now, rng.below(49))),
+                    _ => s += &format!(" qm={} qat={}", gen_qm(rng, k), now.saturating_sub(50 + rng.below(5000))),
                 }
                 ops.push(s);
+                if rng.chance(1, 2) {
+                    ops.push(gen_aux(rng, i, now));
+                }
             }
             ops.push(format!("factors {now}"));
-            for _ in 0..rng.range(1, 3) {
-                let last = if rng.chance(1, 4) { "-".to_string() } else { format!("{}", rng.below(n as u64 + 1)) };
-                ops.push(format!("select2 {last} {now} {}", cfg(rng)));
+            if n > 0 && rng.chance(1, 4) {
+                // timeout-copy skew: the links cache a liveness window that DIFFERS from the configured one
+                // (larger and smaller) and have been silent for a time between the two, guard off and on:
+                // the decision must follow the configured window (the pass refreshes the copy first)
+                let (cfg_cto, copy) = *rng.pick(&CTO_SKEW);
+                let (lo, hi) = (cfg_cto.min(copy), cfg_cto.max(copy));
+                for i in 0..n {
+                    if rng.chance(3, 4) {
+                        let age = *rng.pick(&[lo, lo + 1, lo / 2 + hi / 2, hi - 1, hi, lo.saturating_sub(1)]);
+                        ops.push(format!("set {i} cto={copy} lr={} c=1", now.saturating_sub(age)));
+                    }
+                }
+                let stall = rng.chance(1, 2);
+                ops.push(format!("select2 {} {now} {}", pick_last(rng), gen_cfg_with(rng, k, Some(cfg_cto), Some(stall))));
                 ops.push(format!("bestq {now}"));
+            }
+            for _ in 0..rng.range(1, 3) {
+                ops.push(format!("select2 {} {now} {}", pick_last(rng), gen_cfg(rng, k)));
+                ops.push(format!("bestq {now}"));
+            }
+            if rng.chance(1, 4) {
+                ops.push(format!("gate {now} {}", gen_cfg(rng, k)));
+                ops.push(format!("classic {now}"));
+                ops.push(format!("bestq {now}"));
+            }
+            if rng.chance(1, 2) {
+                // re-inject a stall history, then the guard-off decision against the history-free clone
+                if n > 0 && rng.chance(1, 2) {
+                    let i = rng.below(n as u64);
+                    ops.push(format!("set {i} lat={} rec={} pulled={} gated={}", now.saturating_sub(rng.below(5000) + 1), if rng.chance(1, 2) { 0 } else { now.saturating_sub(rng.below(3000)) }, rng.below(2), rng.below(2)));
+                }
+                ops.push(format!("offbase {} {now} {}", pick_last(rng), gen_cfg(rng, k)));
             }
         } else {
             // ---------- (B) timed trace
             let mut now = t0;
-            let c = cfg(rng);
+            let c = gen_cfg(rng, k);
             let ceil: u64 = kv_parse(&c.split(' ').collect::<Vec<_>>(), "ceil").unwrap_or(3000);
             let mut last: Option<u64> = None;
             for i in 0..n {
                 let srtt: f64 = *rng.pick(&[0.0, 20.0, 100.0, 250.0, 500.0, 2000.0]);
-                ops.push(format!("set {i} srtt={} proof={} est={}", f64_bits(srtt), t0, t0.saturating_sub(40_000)));
+                let mut s = format!("set {i} srtt={} proof={} est={}", f64_bits(srtt), t0, t0.saturating_sub(40_000));
+                if rng.chance(1, 3) {
+                    s += &format!(" w={} q={}", gen_window(rng, k), gen_q(rng));
+                }
+                ops.push(s);
+                if rng.chance(1, 3) {
+                    ops.push(gen_aux(rng, i, now));
+                }
             }
-            let steps = rng.range(20, 80);
+            let steps = match tier {
+                Tier::Quick => rng.range(20, 80),
+                Tier::Thorough => rng.range(20, 120),
+            };
+            // links that keep hearing from the receiver (otherwise every link times out a few steps in
+            // and the rest of the trace has no usable / healthy link)
+            let alive: Vec<bool> = (0..n).map(|_| rng.chance(2, 3)).collect();
             for _ in 0..steps {
-                let win = ceil.max(1);
-                let dt = match rng.below(10) {
+                let win = ceil.clamp(1, 100_000);
+                let dt = match rng.below(11) {
                     0 => win - 1,
                     1 => win,
                     2 => 2 * win - 1,
@@ -618,21 +1189,72 @@ impl Component for Sel {
                     5 => 250,
                     6 => 999,
                     7 => 1000,
+                    8 => *rng.pick(&[0u64, 1, 4999, 5000, 30_000, 60_000]),
                     _ => rng.below(400),
                 };
-                now += dt;
-                let i = rng.below(n as u64);
-                match rng.below(10) {
-                    0 | 1 => ops.push(format!("set {i} inf={}", rng.pick(&[0, 10, 31, 32, 50, 200]))),
-                    2 | 3 => ops.push(format!("set {i} lr={now}")),
-                    4 | 5 => ops.push(format!("set {i} proof={now} lr={now}")),
-                    6 => ops.push(format!("set {i} srtt={}", f64_bits(*rng.pick(&[0.0, 20.0, 100.0, 250.0, 300.0, 800.0, 2000.0])))),
-                    7 => ops.push(format!("set {i} c={}", rng.below(2))),
-                    _ => {}
+                if k.wild_time && rng.chance(1, 8) {
+                    // the clock goes backwards
+                    now = now.saturating_sub(*rng.pick(&[1u64, 250, 1000, win, 5000, 2 * win]));
+                } else {
+                    now = now.saturating_add(dt);
+                }
+                for (j, a) in alive.iter().enumerate() {
+                    if *a && rng.chance(1, 2) {
+                        ops.push(format!("set {j} lr={now}"));
+                    }
+                }
+                if n > 0 {
+                    let i = rng.below(n as u64);
+                    match rng.below(20) {
+                        0 | 1 => ops.push(format!("set {i} inf={}", rng.pick(&[0, 10, 31, 32, 50, 200]))),
+                        2 | 3 => ops.push(format!("set {i} lr={}", stamp!(rng, k, now, 0))),
+                        4 | 5 | 6 => ops.push(format!("set {i} proof={now} lr={now}")),
+                        7 => ops.push(format!("set {i} proof={}", stamp!(rng, k, now, *rng.pick(&[0u64, 1, 500, 999, 1000, 2999, 3000])))),
+                        8 => ops.push(format!("set {i} srtt={}", f64_bits(*rng.pick(&[0.0, 20.0, 100.0, 250.0, 300.0, 800.0, 2000.0])))),
+                        9 => ops.push(format!("set {i} c={}", rng.below(2))),
+                        10 => ops.push(format!("set {i} w={} q={} inf={}", gen_window(rng, k), gen_q(rng), gen_inf(rng, k))),
+                        11 => {
+                            // mid-trace injection of guard fields
+                            let s = match rng.below(6) {
+                                0 => format!("lat={} rec=0", stamp!(rng, k, now, rng.below(4000) + 1)),
+                                1 => format!("lat={} rec={}", stamp!(rng, k, now, 4000 + rng.below(4000)), stamp!(rng, k, now, *rng.pick(&[1u64, 999, 1999, 2000, 5999, 6000]))),
+                                2 => format!("pulled=1 mark={}", if rng.chance(1, 2) { "-".to_string() } else { stamp!(rng, k, now, rng.below(3000)).to_string() }),
+                                3 => "lat=0 rec=0 pulled=0 gated=0".to_string(),
+                                4 => "gated=1".to_string(),
+                                _ => format!("gev={} pulls={} pc={}", rng.below(9), rng.below(9), rng.below(50)),
+                            };
+                            ops.push(format!("set {i} {s}"));
+                        }
+                        12 => ops.push(format!("set {i} weak={} ld={}", rng.below(2), rng.below(2))),
+                        13 => ops.push(format!(
+                            "set {i} ph={}",
+                            match rng.below(4) {
+                                0 => "reg".to_string(),
+                                1 => format!("warm:{}:{}", rng.below(2), now.saturating_sub(rng.below(6000))),
+                                2 => "deg".into(),
+                                _ => "live".into(),
+                            }
+                        )),
+                        14 => {
+                            let cct = gen_cct(rng);
+                            ops.push(format!("set {i} cct={cct} br={} rttmin={}", gen_br(rng, k, cct), gen_rttmin(rng)));
+                        }
+                        15 => ops.push(gen_aux(rng, i as usize, now)),
+                        16 => {
+                            // stale timeout copy (differs from the trace's configured window) + a silence age
+                            // between the two
+                            let cfg_cto: u64 = kv_parse(&c.split(' ').collect::<Vec<_>>(), "cto").unwrap_or(5000);
+                            let copy = *rng.pick(&[1000u64, 2000, 2500, 5000, 12000, 30000, 60000]);
+                            let (lo, hi) = (cfg_cto.min(copy), cfg_cto.max(copy));
+                            let age = *rng.pick(&[lo, lo / 2 + hi / 2, hi.saturating_sub(1), hi]);
+                            ops.push(format!("set {i} cto={copy} lr={}", now.saturating_sub(age)));
+                        }
+                        _ => {}
+                    }
                 }
                 let this_cfg = if rng.chance(1, 25) {
                     // guard toggle / threshold change
-                    cfg(rng)
+                    gen_cfg(rng, k)
                 } else {
                     c.clone()
                 };
@@ -640,9 +1262,16 @@ impl Component for Sel {
                     Some(x) => x.to_string(),
                     None => "-".into(),
                 };
-                ops.push(format!("select {l} {now} {this_cfg}"));
+                match rng.below(40) {
+                    0 => ops.push(format!("offbase {l} {now} {this_cfg}")),
+                    1 => {
+                        ops.push(format!("gate {now} {this_cfg}"));
+                        ops.push(format!("classic {now}"));
+                    }
+                    _ => ops.push(format!("select {l} {now} {this_cfg}")),
+                }
                 // the harness cannot know the decision at generation time; vary `last`
-                last = if rng.chance(1, 6) { None } else { Some(rng.below(n as u64)) };
+                last = if rng.chance(1, 6) { None } else { Some(rng.below(n as u64 + 1)) };
             }
         }
         ops
@@ -651,6 +1280,9 @@ impl Component for Sel {
     fn start_case(&mut self) {
         self.links.clear();
         self.ghost.clear();
+        self.max_now = 0;
+        self.clock_monotone = true;
+        self.last_cto = None;
     }
 
     fn exec(&mut self, toks: &[&str], mon: &mut Mon) -> String {
@@ -702,9 +1334,52 @@ impl Component for Sel {
                 }
                 format!("res={} res2={} res3={} | {}", show_opt(r1), show_opt(r2), show_opt(r3), self.show())
             }
+            ["aux", i, rest @ ..] => {
+                let Ok(i) = i.parse::<usize>() else { return "bad-op".into() };
+                if i >= self.links.len() {
+                    return "bad-op".into();
+                }
+                for t in rest {
+                    let Some((k, v)) = t.split_once('=') else { return "bad-op".into() };
+                    if self.set_aux(i, k, v).is_none() {
+                        return "bad-op".into();
+                    }
+                }
+                mon.count("aux-injected");
+                self.show()
+            }
+            ["offbase", last, now, rest @ ..] => {
+                // C12 "off means baseline": two consecutive guard-off decisions on the current links
+                // (with whatever stall history they carry) and on a history-free clone of them.
+                let last: Option<usize> = if *last == "-" { None } else { match last.parse() { Ok(x) => Some(x), Err(_) => return "bad-op".into() } };
+                let (Ok(now), Some(mut cfg)) = (now.parse::<u64>(), parse_cfg(rest)) else { return "bad-op".into() };
+                cfg.stall_deselect = false;
+                let hist: Vec<VerifPrivate> = self.links.iter().map(|c| c.verif_private()).collect();
+                let mut base: Vec<SrtlaConnection> = self.links.iter().map(history_free_clone).collect();
+                let r1 = self.do_select(last, now, &cfg, mon, &op);
+                let b1 = select_connection_idx(&mut base, last, now, &cfg);
+                let last2 = r1.or(last);
+                let r2 = self.do_select(last2, now, &cfg, mon, &op);
+                let b2 = select_connection_idx(&mut base, last2, now, &cfg);
+                mon.count("offbase");
+                if hist.iter().any(has_stall_history) {
+                    mon.count("offbase-with-history");
+                    mon.nontrivial();
+                }
+                if r1 != b1 || r2 != b2 {
+                    mon.fail(
+                        "C12",
+                        "off-differs-from-baseline",
+                        format!("guard off: decisions {r1:?},{r2:?} on links with stall history {hist:?} but {b1:?},{b2:?} on the same links with no stall history ({op})"),
+                    );
+                }
+                format!("res={} base={} res2={} base2={} | {}", show_opt(r1), show_opt(b1), show_opt(r2), show_opt(b2), self.show())
+            }
             ["gate", now, rest @ ..] => {
                 let (Ok(now), Some(cfg)) = (now.parse::<u64>(), parse_cfg(rest)) else { return "bad-op".into() };
+                let s = self.snap();
                 selhooks::apply_stall_gate(&mut self.links, now, &cfg);
+                self.after_pass(&s, None, now, &cfg, mon, &op);
                 self.show()
             }
             ["classic", now] => {
@@ -716,8 +1391,11 @@ impl Component for Sel {
                 let r = select_best_quality_eligible_idx(&self.links, now);
                 if let Some(i) = r {
                     let c = &self.links[i];
-                    if !c.connected || !c.is_schedulable() || c.is_timed_out(now) || c.is_stall_gated() {
-                        mon.fail("C04", "override-ineligible", format!("best-quality override chose link {i}: connected={} schedulable={} timed_out={} gated={}", c.connected, c.is_schedulable(), c.is_timed_out(now), c.is_stall_gated()));
+                    // configured window of the preceding pass; before any pass the link's own copy
+                    let cto = self.last_cto.unwrap_or(c.verif_private().conn_timeout_ms);
+                    let to = timed_out_oracle(c, now, cto);
+                    if !c.connected || !c.is_schedulable() || to || c.is_stall_gated() {
+                        mon.fail("C04", "override-ineligible", format!("best-quality override chose link {i}: connected={} schedulable={} timed_out(configured {cto})={to} gated={}", c.connected, c.is_schedulable(), c.is_stall_gated()));
                     }
                     mon.count("override-some");
                 }
@@ -740,8 +1418,8 @@ impl Component for Sel {
                             "to={} sc={} q={} cap={} capx={} capn={}",
                             show_bool(c.is_timed_out(now)),
                             c.get_score(),
-                            q.to_bits(),
-                            cap.to_bits(),
+                            fb(q),
+                            fb(cap),
                             show_bool(in_flight_cap_exceeded(c)),
                             show_opt(in_flight_cap_packets(c.cc_target_bps, c.get_rtt_min_ms()))
                         )
